@@ -147,7 +147,12 @@ pub fn fill_parity(num_vars: usize, table: &mut [u64]) {
 
 /// Fill with an equals-k function
 pub fn fill_equals(num_vars: usize, table: &mut [u64], k: usize) {
-    fill_symmetric(num_vars, table, 1 << k);
+    if k > num_vars {
+        // No assignment has that many true variables (and the shift would overflow for large k)
+        fill_zero(num_vars, table);
+    } else {
+        fill_symmetric(num_vars, table, 1 << k);
+    }
 }
 
 /// Fill with a threshold function
